@@ -125,6 +125,14 @@ pub fn attrs_variant(v: u8) -> Arc<Vec<packet::Attribute>> {
         attrs.sort_by_key(|a| a.code());
         return Arc::new(attrs);
     }
+    if (60..66).contains(&v) {
+        // variant v - 60 with an empty AS_PATH (no origin AS: a route originated inside the local AS)
+        let mut attrs = (*attrs_variant(v - 60)).clone();
+        attrs.retain(|a| a.code() != packet::Attribute::AS_PATH);
+        attrs.push(packet::Attribute::new_with_bin(packet::Attribute::AS_PATH, Vec::new()).unwrap());
+        attrs.sort_by_key(|a| a.code());
+        return Arc::new(attrs);
+    }
     if v >= 100 {
         // VPN routes: base variant (v - 100) % 3, route targets by ((v - 100) / 3) % 4: {1}, {2}, {1, 2}, none
         let k = v - 100;
